@@ -136,7 +136,15 @@ namespace bxdecay0 {
       throw std::range_error("bxdecay0::event_reader::set_configuration: Invalid maximum number of events!");
     }
     _config_ = config_;
-    _at_configure_();
+    try {
+      _at_configure_();
+    } catch (...) {
+      // A configuration that cannot be applied (missing input file...) leaves
+      // the reader unconfigured and with no reading progress:
+      _at_unconfigure_();
+      _config_ = config_type();
+      throw;
+    }
     _configured_ = true;
     if (is_trace()) std::cerr << "[trace] bxdecay0::event_reader::set_configuration: Exiting...\n";
     return;
